@@ -42,20 +42,28 @@ def rep_unfold(code, k):
 
 
 class ZSeq(SymVal):
-    def __init__(self, term, kind):
+    """`length`: the length as a linear-arithmetic term kept alongside the sequence term (so that length
+    reasoning never needs the sequence solver); `parts`: provenance of byte strings assembled from slices of
+    a symbolic base, literals, repeated bytes and ropes (used for structural comparison of paddings)"""
+    def __init__(self, term, kind, length=None, parts=None):
         self.t = term
         self.kind = kind            # "str" | "bytes"
+        self.len_expr = length
+        self.parts = parts
 
     @staticmethod
     def sym(name, kind):
-        return ZSeq(z3.Const(name, ISeq), kind)
+        t = z3.Const(name, ISeq)
+        n = z3.Int(name + "_len")
+        sink().add(z3.And(n >= 0, z3.Length(t) == n))
+        return ZSeq(t, kind, n, [("sym", t)])
 
     @staticmethod
     def of(x):
-        return ZSeq(lit(x), "str" if isinstance(x, str) else "bytes")
+        return ZSeq(lit(x), "str" if isinstance(x, str) else "bytes", len(x), [("lit", x)])
 
     def length(self):
-        return z3.Length(self.t)
+        return self.len_expr if self.len_expr is not None else z3.Length(self.t)
 
     def sym_len(self, ctx=None):
         return self.length()
@@ -90,12 +98,13 @@ class ZSeq(SymVal):
                     return v
                 return z3.If(v < 0, z3.If(n + v < 0, 0, n + v), z3.If(v > n, n, v))
             lo = norm(a, z3.IntVal(0))
-            hi = norm(b, n)
+            hi = norm(b, L.toint(n))
             if not ctx.feasible(z3.Not(hi >= lo)):
-                ln = hi - lo
+                ln = z3.simplify(hi - lo)
             else:
                 ln = z3.If(hi > lo, hi - lo, 0)
-            return ZSeq(z3.SubSeq(self.t, lo, ln), self.kind)
+            base = self.parts is not None and len(self.parts) == 1 and self.parts[0][0] == "sym"
+            return ZSeq(z3.SubSeq(self.t, lo, ln), self.kind, ln, [("slice", self.t, lo, ln)] if base else None)
         idx = simplify_native(idx)
         i = L.toint(idx)
         real = z3.If(i < 0, n + i, i)
@@ -110,7 +119,10 @@ class ZSeq(SymVal):
             o = coerce(other, self.kind)
             if o is None:
                 raise PyRaise(TypeError, "concat")
-            return ZSeq(z3.Concat(o.t, self.t) if reflected else z3.Concat(self.t, o.t), self.kind)
+            a, b = (o, self) if reflected else (self, o)
+            ln = None if a.len_expr is None or b.len_expr is None else a.len_expr + b.len_expr
+            parts = None if a.parts is None or b.parts is None else a.parts + b.parts
+            return ZSeq(z3.Concat(a.t, b.t), self.kind, ln, parts)
         raise Undecided("sequence operator " + type(op).__name__)
 
     def sym_compare(self, ctx, op, other, reflected):
@@ -212,7 +224,8 @@ def coerce(x, kind):
     if isinstance(x, Rope) and kind == "bytes":
         if x.is_concrete():
             return ZSeq.of(x.native())
-        return ZSeq(z3.Concat(*[z3.Unit(L.toint(b)) for b in x.bytes_list()]) if len(x) > 1 else z3.Unit(L.toint(x[0])), "bytes")
+        return ZSeq(z3.Concat(*[z3.Unit(L.toint(b)) for b in x.bytes_list()]) if len(x) > 1 else z3.Unit(L.toint(x[0])), "bytes",
+                    len(x), [("rope", x)])
     return None
 
 
